@@ -31,6 +31,11 @@ ASSUMPTIONS = ["after continue_with_distance (a jump operation) only the existen
 
 
 def gen_case(rng, i, tier):
+    if i % 60 == 13:
+        case = mcase.gen_large_mcase(rng)
+        case["backend"] = "inmem"
+        case["ops"] = gen.gen_history(rng, len(case["trace"]), case["cfg"]["width"], allow_cwd=False, max_ops=2)
+        return case
     sq = rng.random() < 0.15
     case = mcase.gen_mcase(rng, ne=(rng.random() < 0.6), width="maybe", tighten_p=0.15, sparse_p=0.3, max_obs=9,
                            labels=("int",) if sq else ("int", "int", "str", "gap"))
@@ -48,10 +53,14 @@ def gen_case(rng, i, tier):
     if sq:
         m["edges"] = [e for e in m["edges"] if e[0] != e[1]]  # SqliteMap has no self-listed neighbours idiom
     case["ops"] = gen.gen_history(rng, len(case["trace"]), case["cfg"]["width"], allow_cwd=(rng.random() < 0.1 and not sq), max_ops=3)
+    if not case.get("large") and not case["map"].get("latlon"):
+        gen.add_pre_trace(rng, case)
     return case
 
 
 def check_case(ctx, case):
+    if case.get("large"):
+        ctx.count("large_map_cases")
     m = case["map"]
     model = MapModel(m)
     sm = None
